@@ -207,12 +207,14 @@ CLAIMED = {
              '2^-14 bounds; judged on every run by the mpmath search oracle (worst observed 0.22 of the bound).',
         design_ref='7/C16', note=COMMON_NOTE + ' The numeric error bounds rest on sampled oracle judgements only.', technique='Lean 4 proof (partial) + translator-checked tables + differential correspondence + mpmath search oracle'),
     'C08': dict(
-        text='PARTIAL (theorems in progress). The full statement C08_statement (model returns the half-even rounding of the literal\'s exact rational value with the exact overflow flag, or a non-overflow '
-             'error, without panic or debug-only check, for every byte string/radix/layout) is in SfxProps/C08.lean; proved so far: specification-side lemma rneDiv_spec. The deciding evidence today is the '
-             'tie: the 539-line function-by-function model of from_str.rs agrees with the code on every request (hook from_str_{i,u}N on all 507 layouts x 4 radices + 16 public entry points, grammar-/tie-directed '
-             'literals up to 200 digits, malformed and non-UTF-8 input, both profiles) and every implementation answer is judged against the exact specification. Two defects found this way were repaired (292489c, 8a5b41d).',
-        design_ref='7/C08', note=COMMON_NOTE + ' Until the model-equals-spec theorems are merged the "holds" verdict for C08 rests on sampled exact-specification judgements.',
-        technique='Lean 4 executable model + exact specification verdict + differential correspondence (proofs in progress)'),
+        text='FULL. Theorems SfxProps.C08.holds (= C08_statement: for every byte string, radix 2/8/10/16 and valid layout the model of from_str_{i,u}N returns, without panic or debug-only check, '
+             'the half-even rounding E of the literal\'s exact rational value modulo 2^n with the flag "E out of range", or a non-overflow error for a malformed string) and forms_hold (the four public '
+             'forms FromStr.parse: plain = E or the overflow error exactly when E is out of range, saturating = E clamped to the bound on the literal\'s side, wrapping/overflowing = E mod 2^n [+ flag]). '
+             'Proof covers the tokeniser, integer folds with the half-width delegation chain, binary/octal/hex fractions, the decimal fast path dec_to_bin (four widening widths and the two-limb u128 '
+             'version over the proved wide division) and the slow-path boundary loop. Tie: the 580-line function-by-function model agrees with the code on every request (hook on all 507 layouts x 4 radices '
+             '+ 16 public entry points, grammar-/tie-directed literals up to 200 digits, malformed and non-UTF-8 input, both profiles); every implementation answer is also judged against the exact '
+             'specification. Two defects found this way were repaired (292489c, 8a5b41d).',
+        design_ref='7/C08', note=COMMON_NOTE, technique='Lean 4 proof (model = exact rational specification) + differential correspondence'),
     'C09': dict(
         text='PARTIAL (theorems in progress). The function-by-function model of display.rs agrees with the code on every request (hook fmt_dec/fmt_radix2 on all 507 layouts, 2112 literal format-spec combinations, '
              'precision 0..200, width 0..140, both profiles); every implementation answer is judged by an exact-rational verdict (digits shown = half-even rounding at the requested/shown precision, radix 2^k exact, '
